@@ -562,6 +562,9 @@ class An(ResultQuantifier[T]):
 
     def evaluate(self) -> Iterable[TypingUnion[T, Dict[TypingUnion[T, SymbolicExpression[T]], T]]]:
         try:
+            # an earlier result iterator of this query may still be open (given up, but neither closed nor collected
+            # yet): this evaluation does not start from the duplicate tracking state that one left behind.
+            self._reset_cache_()
             results = iter(self._evaluate__())
             while True:
                 # Symbolic mode is switched off only while a result is being computed, never while this generator
